@@ -352,6 +352,40 @@ pub fn c10(tier: &str, acc: &mut Acc, bounds: &mut Vec<String>) {
     });
     acc.merge(a4);
     bounds.push(format!("population level {level}: every family x 3 kinds x nfb values builds without panic or error"));
+    // every class of character is a valid pattern character: the UTF-8 width boundaries, the
+    // neighbours of the surrogate gap and the first / last code point of every plane, alone and
+    // next to an ASCII letter, in one collection per code point and all together
+    let mut cps: Vec<u32> = vec![0x00, 0x01, 0x7f, 0x80, 0xff, 0x100, 0x7ff, 0x800, 0xd7ff, 0xe000, 0xfffd, 0xfffe, 0xffff];
+    for plane in 1..=16u32 {
+        cps.push(plane << 16);
+        cps.push((plane << 16) | 0xffff);
+    }
+    let mut a5 = Acc::new();
+    let mut all: Vec<Vec<u8>> = Vec::new();
+    let mut colls: Vec<Vec<Vec<u8>>> = Vec::new();
+    for &cp in &cps {
+        let c = char::from_u32(cp).unwrap();
+        let coll: Vec<Vec<u8>> = vec![c.to_string().into_bytes(), format!("a{c}").into_bytes(), format!("{c}{c}b").into_bytes()];
+        all.extend(coll.iter().cloned());
+        colls.push(coll);
+    }
+    colls.push(all);
+    for coll in &colls {
+        for variant in Variant::ALL {
+            for kind in Kind::ALL {
+                for nfb in [None, Some(1)] {
+                    let cfg = Cfg::new(variant, kind, nfb, Entry::Builder);
+                    set_case(prop, "collections", e2::case_json(&cfg, coll, None));
+                    a5.evals += 1;
+                    a5.nontrivial += 1;
+                    a5.traces += 1;
+                    let _ = e2::build_or_violate(prop, "collections", cfg, coll, None, &mut a5);
+                }
+            }
+        }
+    }
+    acc.merge(a5);
+    bounds.push(format!("character classes: {} boundary code points (UTF-8 width boundaries, surrogate-gap neighbours, first and last code point of every plane) as pattern characters x both variants x 3 kinds x nfb {{1,default}}", cps.len()));
 }
 
 pub fn replay_collections(case: &Value) -> bool {
